@@ -154,6 +154,43 @@ def run(ctx):
     ctx.ob('R16.3', 'objective >= optimum', bool(ge), 'the request is admitted when objective >= cached optimum (observed comparison operators: ' + ','.join(sorted({op for bi, s, op, a, c in binops(b) if op in ("Ge", "Gt", "Le", "Lt", "Eq")})) + ')', b.loc(ge[0][0], ge[0][1]) if ge else b.loc())
     sub = [1 for bi, s, op, a, c in binops(b) if op.startswith('Sub') and c[0] == 'k']
     ctx.ob('R16.3', 'epsilon', bool(sub), 'an epsilon is subtracted from the optimum before it is cached', b.loc())
-    e, _ = guard_edges(b, AR + '::is_forced', True)
-    clos = [prog.bodies[p] for p in prog.children(b.path) if prog.bodies[p].call_blocks(AR + '::is_forced')]
-    ctx.ob('R16.3', 'non-strict policies skip the optimum test', bool(clos), 'when no coupled entry is forced the request is admitted without comparing with the optimum', b.loc())
+    # strictness must be decided over ALL coupled entries: Iterator::all/any over `coupling` with an is_forced closure,
+    # or an or-accumulated flag (a plain assignment inside the per-entry closure keeps only the last entry's answer)
+    aa = []
+    for bi, t, c in b.calls():
+        if bi in b.reachable() and (callee_decl(t) or '').endswith(('Iterator::all', 'Iterator::any')):
+            names = {b.local_name.get(x) for x in b.derived_from(op_local(t['args'][0]))}
+            cl = [norm(d[2]['rv'][1][1]) for a in t['args'][1:] if op_local(a) is not None for x in b.derived_from(op_local(a)) for d in b.defs().get(x, ())
+                  if d[1] == 'a' and d[2]['rv'][0] == 'agg' and d[2]['rv'][1][0] == 'closure']
+            if 'coupling' in names and any(prog.bodies[c_].call_blocks(AR + '::is_forced') for c_ in cl if c_ in prog.bodies):
+                aa.append(bi)
+    acc_or = False
+    for p_ in prog.children(b.path):
+        cb = prog.bodies[p_]
+        if cb.call_blocks(AR + '::is_forced'):
+            for bi, s_, op, a, c in binops(cb):
+                if op == 'BitOr':
+                    acc_or = True
+    plain_flag = False
+    for p_ in prog.children(b.path):
+        cb = prog.bodies[p_]
+        fc = cb.call_blocks(AR + '::is_forced')
+        for x in fc:
+            t = cb.term[x]
+            # result written straight through an upvar reference
+            if t['d'][1] and '*' in t['d'][1]:
+                plain_flag = True
+            dl = t['d'][0]
+            for bi in cb.reachable():
+                for s_ in cb.stmts(bi):
+                    if s_['k'] == 'a' and s_['p'][1] and '*' in s_['p'][1] and s_['rv'][0] == 'use' and op_local(s_['rv'][1]) == dl:
+                        plain_flag = True
+    ctx.ob('R16.3', 'strictness decided over all coupled entries', (bool(aa) or acc_or) and not (plain_flag and not acc_or),
+           'the decision to skip the optimum test is an all()/any() over the coupled entries (or an or-accumulated flag); a flag overwritten per entry lets a later non-strict entry hide a strict one', b.loc(aa[0]) if aa else b.loc())
+    if aa:
+        t = b.term[aa[0]]
+        e_t, _ = guard_edges(b, callee_decl(t), True)
+        gs = b.call_blocks(lambda c: c.endswith('groups::group_solver'))
+        # on the edge where no entry is forced the function returns true without calling the solver
+        ok = bool(e_t) and bool(gs)
+        ctx.ob('R16.3', 'non-strict policies skip the optimum test', ok, 'when no coupled entry is forced the request is admitted without comparing with the optimum', b.loc(aa[0]))
